@@ -60,7 +60,7 @@ REQUIRED_MONITORS = [
     "DirectoryEntry.fromFile", "DirectoryEntry.loadData", "TTFont._readTable", "TTFont.save",
     "TTCollection.save", "SFNTWriter.__setitem__", "safeEval",
 ]
-CASE_TIMEOUT = 240
+CASE_TIMEOUT = 400
 MANIFEST = {
     "text": "Fault enumeration. (1) every truncation length and every single-byte header/directory corruption of corpus fonts in sfnt, TTC, WOFF and WOFF2 form plus a garbage zoo must be rejected with TTLibError (or open) at TTFont()/reader[tag]/TTCollection(); (2) every table payload damaged six ways with ignoreDecompileErrors=True must come back as raw DefaultTable bytes and be written unchanged; (3) every element/attribute class of the corpus TTX, designspace, GLIF, plist, UFO and .fea inputs is replaced by code-execution and path-traversal canaries and run through API and CLI entry points under sys.addaudithook - no exec of a code object carrying the canary, no process spawn, no write outside the requested output directory; (4) a failure injected at every line executed by a save before the destination is opened, and in every table's compile, must leave an existing destination file byte-identical.",
     "note": "Trusted base: Python's audit hook and sys.monitoring, a spec-written sfnt/TTC/WOFF/WOFF2 directory reader (vmon/oracle/c20_sfnt.py). Clause 1 is judged at container level only; clause 4 excludes failures after the destination was opened (non-atomic write is not promised).",
@@ -664,119 +664,130 @@ def run_payload(case, ctx, rnd):
         seen.add(k)
         ctx.violation(mech, what, wit)
 
+    def variant(tag, dname, dbytes):
+        nonlocal n_fb, n_dec, n_saved, n_abort
+        t2 = dict(tabs)
+        t2[tag] = dbytes
+        blob = S.build_sfnt(ver, t2)
+        infile = S.sfnt_tables(blob)[1]          # what the container really holds (head adjusted)
+        lazy = lazies[(len(dbytes) + len(tag) + ord(tag[0])) % 3] if case["seed"] % 2 else lazies[(len(dbytes) + ord(tag[-1])) % 3]
+        wit = {"font": rel, "table": tag, "damage": dname, "lazy": lazy, "damaged_len": len(dbytes), "orig_len": len(tabs[tag])}
+        _cur["fallback"] = {}
+        try:
+            font = TTFont(io.BytesIO(blob), ignoreDecompileErrors=True, lazy=lazy, recalcBBoxes=False, recalcTimestamp=False)
+        except Exception as e:
+            ctx.judged()
+            bad({"kind": "raw-table", "what": "open-raised", "type": tname(e), "table": tag},
+                "valid container with damaged '%s' payload: TTFont() raised %s" % (tag, tname(e)), wit)
+            return
+        ok = True
+        for t in list(font.keys()):
+            if t == "GlyphOrder":
+                continue
+            try:
+                tb = font[t]
+                ctx.judged()
+            except (CaseTimeout, MemoryError, RecursionError):
+                raise
+            except Exception as e:
+                ctx.judged()
+                ok = False
+                fr = lib_frame(e)
+                bad({"kind": "raw-table", "what": "access-raised", "type": tname(e), "table": t, "damaged": tag,
+                     "func": fr[1] if fr else None},
+                    "ignoreDecompileErrors=True but font[%r] raised %s (damaged table: %s, %s)" % (t, tname(e), tag, dname), wit)
+        if not ok:
+            return
+        fb = {t: tb for t, tb in _cur["fallback"].items() if t != "_raised"}
+        _cur["fallback"] = None
+        for t, tb in fb.items():
+            ctx.judged()
+            if type(tb) is not DefaultTable or getattr(tb, "data", None) != infile[t]:
+                bad({"kind": "raw-table", "what": "fallback-lost-data", "table": t},
+                    "undecodable '%s' came back as %s whose data differs from the file's bytes" % (t, type(tb).__name__),
+                    dict(wit, got=repr(getattr(tb, "data", None))[:80], want=infile[t][:40].hex()))
+                continue
+            try:
+                got = font.getTableData(t)
+            except Exception as e:
+                got = e
+            if got != infile[t]:
+                bad({"kind": "raw-table", "what": "getTableData-differs", "table": t},
+                    "getTableData(%r) of the raw fallback table does not return the file's bytes" % t, dict(wit, got=repr(got)[:80]))
+        if tag in fb:
+            n_fb += 1
+            ctx.nontrivial("p:%s:%s:%s" % (rel[-16:], tag, dname))
+        else:
+            n_dec += 1
+        # ---- save: raw tables must be written unchanged, and must not abort the save
+        _cur["writer_in"] = {}
+        _cur["gtd_exc"] = _cur["gtd_tag"] = None
+        out = io.BytesIO()
+        try:
+            font.save(out)
+        except (CaseTimeout, MemoryError, RecursionError):
+            raise
+        except Exception as e:
+            n_abort += 1
+            culprit = _cur["gtd_tag"] if _cur["gtd_exc"] is e else None
+            if culprit in fb:
+                ctx.judged()
+                bad({"kind": "raw-table", "what": "save-aborted-by-raw-table", "table": culprit, "type": tname(e)},
+                    "save aborted while compiling the raw fallback table %r: %s" % (culprit, tname(e)), wit)
+            else:
+                ctx.note("clause2:save aborted by a decoded table (not judged)")
+            _cur["writer_in"] = None
+            return
+        win, _cur["writer_in"] = _cur["writer_in"], None
+        n_saved += 1
+        try:
+            over, otabs = S.sfnt_tables(out.getvalue())
+        except S.Bad as e:
+            ctx.judged()
+            bad({"kind": "raw-table", "what": "output-unparsable"}, "saved font is not a parsable sfnt: %s" % e, wit)
+            return
+        for t in fb:
+            ctx.judged()
+            if t not in otabs or _mask_head(t, otabs[t]) != _mask_head(t, infile[t]):
+                bad({"kind": "raw-table", "what": "resaved-differs", "table": t},
+                    "raw fallback table %r is not byte-identical in the saved font" % t,
+                    dict(wit, got=otabs.get(t, b"")[:40].hex(), want=infile[t][:40].hex()))
+        for t, given in win.items():
+            ctx.judged()
+            if t in otabs and _mask_head(t, otabs[t]) != _mask_head(t, given):
+                if t == "head" and len(given) < 12 and otabs[t][:8] == given[:8]:
+                    what = "short-head-overwritten"
+                else:
+                    what = "other-table-clobbered"
+                bad({"kind": "raw-table", "what": what, "damaged": tag, "table": t if t in ("head",) else "*",
+                     "raw_head_len_lt_12": bool(tag == "head" and len(dbytes) < 12)},
+                    "table %r in the saved font differs from the bytes handed to SFNTWriter while %r was kept raw (%s, %d bytes)"
+                    % (t, tag, dname, len(dbytes)),
+                    dict(wit, table=t, handed_to_writer=given[:24].hex(), in_file=otabs[t][:24].hex()))
+        # ---- reload
+        try:
+            f2 = TTFont(io.BytesIO(out.getvalue()), ignoreDecompileErrors=True, lazy=lazy)
+            for t in fb:
+                ctx.judged()
+                if _mask_head(t, f2.reader[t]) != _mask_head(t, infile[t]):
+                    bad({"kind": "raw-table", "what": "reload-differs", "table": t}, "reloaded raw table %r differs" % t, wit)
+        except (CaseTimeout, MemoryError):
+            raise
+        except Exception as e:
+            bad({"kind": "raw-table", "what": "reload-raised", "type": tname(e)}, "reloading the saved font raised %s" % tname(e), wit)
+
     for tag in tags:
         if tag not in tabs:
             continue
         for dname, dbytes in GF.payload_damages(tabs[tag], rnd):
-            t2 = dict(tabs)
-            t2[tag] = dbytes
-            blob = S.build_sfnt(ver, t2)
-            infile = S.sfnt_tables(blob)[1]          # what the container really holds (head adjusted)
-            lazy = lazies[(len(dbytes) + len(tag) + ord(tag[0])) % 3] if case["seed"] % 2 else lazies[(len(dbytes) + ord(tag[-1])) % 3]
-            wit = {"font": rel, "table": tag, "damage": dname, "lazy": lazy, "damaged_len": len(dbytes), "orig_len": len(tabs[tag])}
-            _cur["fallback"] = {}
+            # damaged counts can send a decompiler into very long loops: bound each variant separately
             try:
-                font = TTFont(io.BytesIO(blob), ignoreDecompileErrors=True, lazy=lazy, recalcBBoxes=False, recalcTimestamp=False)
-            except Exception as e:
-                ctx.judged()
-                bad({"kind": "raw-table", "what": "open-raised", "type": tname(e), "table": tag},
-                    "valid container with damaged '%s' payload: TTFont() raised %s" % (tag, tname(e)), wit)
-                continue
-            ok = True
-            for t in list(font.keys()):
-                if t == "GlyphOrder":
-                    continue
-                try:
-                    tb = font[t]
-                    ctx.judged()
-                except (CaseTimeout, MemoryError, RecursionError):
-                    raise
-                except Exception as e:
-                    ctx.judged()
-                    ok = False
-                    fr = lib_frame(e)
-                    bad({"kind": "raw-table", "what": "access-raised", "type": tname(e), "table": t, "damaged": tag,
-                         "func": fr[1] if fr else None},
-                        "ignoreDecompileErrors=True but font[%r] raised %s (damaged table: %s, %s)" % (t, tname(e), tag, dname), wit)
-            if not ok:
-                continue
-            fb = {t: tb for t, tb in _cur["fallback"].items() if t != "_raised"}
-            _cur["fallback"] = None
-            for t, tb in fb.items():
-                ctx.judged()
-                if type(tb) is not DefaultTable or getattr(tb, "data", None) != infile[t]:
-                    bad({"kind": "raw-table", "what": "fallback-lost-data", "table": t},
-                        "undecodable '%s' came back as %s whose data differs from the file's bytes" % (t, type(tb).__name__),
-                        dict(wit, got=repr(getattr(tb, "data", None))[:80], want=infile[t][:40].hex()))
-                    continue
-                try:
-                    got = font.getTableData(t)
-                except Exception as e:
-                    got = e
-                if got != infile[t]:
-                    bad({"kind": "raw-table", "what": "getTableData-differs", "table": t},
-                        "getTableData(%r) of the raw fallback table does not return the file's bytes" % t, dict(wit, got=repr(got)[:80]))
-            if tag in fb:
-                n_fb += 1
-                ctx.nontrivial("p:%s:%s:%s" % (rel[-16:], tag, dname))
-            else:
-                n_dec += 1
-            # ---- save: raw tables must be written unchanged, and must not abort the save
-            _cur["writer_in"] = {}
-            _cur["gtd_exc"] = _cur["gtd_tag"] = None
-            out = io.BytesIO()
-            try:
-                font.save(out)
-            except (CaseTimeout, MemoryError, RecursionError):
-                raise
-            except Exception as e:
-                n_abort += 1
-                culprit = _cur["gtd_tag"] if _cur["gtd_exc"] is e else None
-                if culprit in fb:
-                    ctx.judged()
-                    bad({"kind": "raw-table", "what": "save-aborted-by-raw-table", "table": culprit, "type": tname(e)},
-                        "save aborted while compiling the raw fallback table %r: %s" % (culprit, tname(e)), wit)
-                else:
-                    ctx.note("clause2:save aborted by a decoded table (not judged)")
-                _cur["writer_in"] = None
-                continue
-            win, _cur["writer_in"] = _cur["writer_in"], None
-            n_saved += 1
-            try:
-                over, otabs = S.sfnt_tables(out.getvalue())
-            except S.Bad as e:
-                ctx.judged()
-                bad({"kind": "raw-table", "what": "output-unparsable"}, "saved font is not a parsable sfnt: %s" % e, wit)
-                continue
-            for t in fb:
-                ctx.judged()
-                if t not in otabs or _mask_head(t, otabs[t]) != _mask_head(t, infile[t]):
-                    bad({"kind": "raw-table", "what": "resaved-differs", "table": t},
-                        "raw fallback table %r is not byte-identical in the saved font" % t,
-                        dict(wit, got=otabs.get(t, b"")[:40].hex(), want=infile[t][:40].hex()))
-            for t, given in win.items():
-                ctx.judged()
-                if t in otabs and _mask_head(t, otabs[t]) != _mask_head(t, given):
-                    if t == "head" and len(given) < 12 and otabs[t][:8] == given[:8]:
-                        what = "short-head-overwritten"
-                    else:
-                        what = "other-table-clobbered"
-                    bad({"kind": "raw-table", "what": what, "damaged": tag, "table": t if t in ("head",) else "*",
-                         "raw_head_len_lt_12": bool(tag == "head" and len(dbytes) < 12)},
-                        "table %r in the saved font differs from the bytes handed to SFNTWriter while %r was kept raw (%s, %d bytes)"
-                        % (t, tag, dname, len(dbytes)),
-                        dict(wit, table=t, handed_to_writer=given[:24].hex(), in_file=otabs[t][:24].hex()))
-            # ---- reload
-            try:
-                f2 = TTFont(io.BytesIO(out.getvalue()), ignoreDecompileErrors=True, lazy=lazy)
-                for t in fb:
-                    ctx.judged()
-                    if _mask_head(t, f2.reader[t]) != _mask_head(t, infile[t]):
-                        bad({"kind": "raw-table", "what": "reload-differs", "table": t}, "reloaded raw table %r differs" % t, wit)
-            except (CaseTimeout, MemoryError):
-                raise
-            except Exception as e:
-                bad({"kind": "raw-table", "what": "reload-raised", "type": tname(e)}, "reloading the saved font raised %s" % tname(e), wit)
+                with _deadline(40):
+                    variant(tag, dname, dbytes)
+            except CaseTimeout:
+                _cur["fallback"] = _cur["writer_in"] = None
+                ctx.note("clause2:variant stopped by the 40 s watchdog (resource exhaustion, not judged)")
+                ctx.skip("damaged payload variant exceeded the watchdog")
     ctx.note("clause2:target table fell back to raw bytes", n_fb)
     ctx.note("clause2:damaged payload still decoded", n_dec)
     ctx.note("clause2:saves completed", n_saved)
